@@ -7,7 +7,7 @@ from .c19 import strip_inst
 def spec(tier, seed):
     q = tier == "quick"
     inst = []
-    for (L, st, ow) in ([(3, 1, True), (4, 2, False), (3, 0, False)] if q else [(L, st, ow) for L in (3, 4, 5) for st in (0, 1, 2, 3) for ow in (False, True)]):
+    for (L, st, ow) in ([(3, 1, True), (3, 2, False), (3, 0, False)] if q else [(L, st, ow) for L in (3, 4, 5) for st in (0, 1, 2, 3) for ow in (False, True)]):
         inst.append(strip_inst("c16", L, st, ow, "C16 strip drops exactly N leading components of both names"))
     return {
         "instances": inst,
